@@ -79,7 +79,7 @@ namespace OpenMEEG {
         SymMatrix mat(isize);
         for (Index i=istart; i<=iend; ++i)
             for (Index j=i; j<=iend; ++j)
-                mat(i,j) = (*this)(i,j);
+                mat(i-istart,j-istart) = (*this)(i,j);
 
         return mat;
     }
